@@ -277,3 +277,210 @@ Proof.
   apply (toc_of_holds d' (m0 + 1) f' fuel2 (holds_reload nreal Hnum d2 d' C1 C2 C3 _ _ Hholds) K1 K2 K3).
   rewrite Hpages, Hrows. apply rows_ok; assumption.
 Qed.
+
+(* ====================================================================================================
+   The same with named destinations (Model/TocNamed.v): under the exact round-trip statement (every object
+   equal up to [nn], same number of objects) get_named_destinations walks the same tree to the same outcome --
+   [nn] changes no reference, string, array or dictionary shape and the kid budget is objects.len() --, so the
+   reloaded document is readable iff the saved one is, and the table of contents is the same.
+   ==================================================================================================== *)
+From LV Require Model.Query Model.TocNamed Proofs.OutlineProofsNamed.
+
+Section ReloadNamed.
+  Import Model.Query.
+  Variable nreal : bytes -> obj.
+  Hypothesis nreal_num : forall r, (exists z, nreal r = OInt z) \/ (exists r', nreal r = OReal r').
+  Variables d d' : doc.
+  Hypothesis C01_root : dict_get (d_trailer d') K_Root = dict_get (d_trailer d) K_Root.
+  Hypothesis C01_objects : forall id, lookup (d_objects d') id = option_map (nn nreal) (lookup (d_objects d) id).
+  Hypothesis C01_count : length (d_objects d') = length (d_objects d).
+
+  Let m := d_objects d.
+  Let m' := d_objects d'.
+  Notation nn' := (nn nreal).
+  Notation nnd' := (nnd nreal).
+
+  Ltac nreal_cases r := let z := fresh "z" in let E := fresh "E" in
+    destruct (nreal_num r) as [[z E]|[z E]]; rewrite E.
+
+  Definition nmn (nm : nmap) : nmap :=
+    map (fun kv : bytes * dest => (fst kv, (nn' (fst (fst (snd kv))), nn' (snd (fst (snd kv))), nn' (snd (snd kv))))) nm.
+
+  Lemma nm_insert_nn nm k t p ty : nm_insert (nmn nm) k (nn' t, nn' p, nn' ty) = nmn (nm_insert nm k (t, p, ty)).
+  Proof.
+    induction nm as [|[k0 [[t0 p0] ty0]] nm IH]; [reflexivity|].
+    cbn [nmn map nm_insert fst snd]. destruct (bytes_eqb k0 k); [reflexivity|].
+    cbn [map fst snd]. f_equal. exact IH.
+  Qed.
+
+  Lemma nm_get_nn nm k :
+    nm_get (nmn nm) k = option_map (fun v : dest => (nn' (fst (fst v)), nn' (snd (fst v)), nn' (snd v))) (nm_get nm k).
+  Proof.
+    induction nm as [|[k0 [[t0 p0] ty0]] nm IH]; [reflexivity|].
+    cbn [nmn map nm_get fst snd]. destruct (bytes_eqb k0 k); [reflexivity | exact IH].
+  Qed.
+
+  Lemma nd_entry_nn nm key arr : nd_entry (nmn nm) (nn' key) (map nn' arr) = option_map nmn (nd_entry nm key arr).
+  Proof.
+    destruct arr as [|a0 [|a1 arr]]; try reflexivity. cbn [map nd_entry].
+    destruct key; try reflexivity.
+    - cbn [nn]. nreal_cases r; reflexivity.
+    - cbn [nn option_map]. f_equal. apply (nm_insert_nn nm s (OStr s hex) a0 a1).
+  Qed.
+
+  Lemma nd_from_dict_nn nm key dd : nd_from_dict (nmn nm) (nn' key) (nnd' dd) = option_map nmn (nd_from_dict nm key dd).
+  Proof.
+    unfold nd_from_dict. rewrite (dict_get_nnd nreal). destruct (dict_get dd Q_D) as [o|]; [|reflexivity].
+    cbn [option_map]. destruct o; try reflexivity.
+    - cbn [nn]. nreal_cases r; reflexivity.
+    - cbn [nn]. apply nd_entry_nn.
+  Qed.
+
+  Lemma nd_names_nn : forall l nm,
+    nd_names m' (map nn' l) (nmn nm) = (nmn (fst (nd_names m l nm)), snd (nd_names m l nm)).
+  Proof.
+    fix IH 1. intros [|key [|val l]] nm; try reflexivity.
+    cbn [map nd_names].
+    assert (Step : forall (st : option nmap),
+              match option_map nmn st with Some nm' => nd_names m' (map nn' l) nm' | None => (nmn nm, false) end
+              = (nmn (fst (match st with Some nm' => nd_names m l nm' | None => (nm, false) end)),
+                 snd (match st with Some nm' => nd_names m l nm' | None => (nm, false) end))).
+    { intros [nm1|]; [cbn [option_map]; apply IH | reflexivity]. }
+    destruct val; cbn [nn]; try exact (Step (Some nm)).
+    - nreal_cases r; exact (Step (Some nm)).
+    - pose proof (Step (nd_from_dict nm key d0)) as S1. rewrite <- (nd_from_dict_nn nm key d0) in S1. exact S1.
+    - unfold m', m. rewrite (get_dictionary_nn nreal nreal_num d d' C01_objects).
+      destruct (get_dictionary (d_objects d) (id, gen)) as [dd|]; cbn [option_map].
+      + pose proof (Step (nd_from_dict nm key dd)) as S1. rewrite <- (nd_from_dict_nn nm key dd) in S1. exact S1.
+      + rewrite (get_object_nn nreal nreal_num d d' C01_objects).
+        destruct (get_object (d_objects d) (id, gen)) as [o|]; cbn [option_map]; [|exact (Step (Some nm))].
+        destruct o; cbn [nn]; try exact (Step (Some nm)).
+        * nreal_cases r; exact (Step (Some nm)).
+        * pose proof (Step (nd_entry nm key l0)) as S1. rewrite <- (nd_entry_nn nm key l0) in S1. exact S1.
+  Qed.
+
+  Definition ndres_nn (r : ndres) : ndres := (nmn (fst r), snd r).
+
+  Lemma nd_kids_nn (rec rec' : dict -> nmap -> nat -> ndres) depth :
+    (forall kd nm b, rec' (nnd' kd) (nmn nm) b = ndres_nn (rec kd nm b)) ->
+    forall l nm budget, nd_kids rec' m' depth (map nn' l) (nmn nm) budget = ndres_nn (nd_kids rec m depth l nm budget).
+  Proof.
+    intros Hrec. induction l as [|kid l IH]; intros nm budget; [reflexivity|].
+    cbn [map nd_kids]. destruct kid; cbn [nn]; try apply IH.
+    - nreal_cases r; apply IH.
+    - unfold m', m. rewrite (get_dictionary_nn nreal nreal_num d d' C01_objects). fold m m'.
+      destruct (get_dictionary m (id, gen)) as [kd|]; cbn [option_map]; [|apply IH].
+      destruct budget as [|b]; [reflexivity|].
+      destruct (NAME_TREE_DEPTH_LIMIT <=? depth)%N; [reflexivity|].
+      rewrite Hrec. destruct (rec kd nm b) as [nm1 [b'| | |]]; cbn [ndres_nn fst snd]; try reflexivity. apply IH.
+  Qed.
+
+  Lemma nd_node_nn (rec rec' : dict -> nmap -> nat -> ndres) :
+    (forall kd nm b, rec' (nnd' kd) (nmn nm) b = ndres_nn (rec kd nm b)) ->
+    forall tree nm budget depth,
+      nd_node rec' m' (nnd' tree) (nmn nm) budget depth = ndres_nn (nd_node rec m tree nm budget depth).
+  Proof.
+    intros Hrec tree nm budget depth. unfold nd_node, nd_after_kids. rewrite !(dict_get_nnd nreal).
+    assert (Names : forall nm1 (b1 : nat),
+      match option_map nn' (dict_get tree Q_Names) with
+      | Some (OArr l) => let '(nm2, okb) := nd_names m' l (nmn nm1) in (nm2, if okb then Ok b1 else Err)
+      | Some _ => (nmn nm1, Err)
+      | None => (nmn nm1, Ok b1)
+      end = ndres_nn match dict_get tree Q_Names with
+                     | Some (OArr l) => let '(nm2, okb) := nd_names m l nm1 in (nm2, if okb then Ok b1 else Err)
+                     | Some _ => (nm1, Err)
+                     | None => (nm1, Ok b1)
+                     end).
+    { intros nm1 b1. destruct (dict_get tree Q_Names) as [o|]; [|reflexivity]. cbn [option_map].
+      destruct o; cbn [nn]; try reflexivity; [nreal_cases r; reflexivity|].
+      rewrite nd_names_nn. destruct (nd_names m l nm1) as [nm2 okb]. reflexivity. }
+    destruct (dict_get tree K_Kids) as [o|]; cbn [option_map]; [|apply Names].
+    destruct o; cbn [nn]; try reflexivity; [nreal_cases r; reflexivity|].
+    rewrite (nd_kids_nn rec rec' depth Hrec).
+    destruct (nd_kids rec m depth l nm budget) as [nm1 [b1| | |]]; cbn [ndres_nn fst snd]; try reflexivity.
+    apply Names.
+  Qed.
+
+  Lemma nd_walk_nn : forall fuel tree nm budget depth,
+    nd_walk fuel m' (nnd' tree) (nmn nm) budget depth = ndres_nn (nd_walk fuel m tree nm budget depth).
+  Proof.
+    induction fuel as [|f IH]; intros tree nm budget depth; [reflexivity|].
+    cbn [nd_walk]. apply nd_node_nn. intros kd nm1 b. apply IH.
+  Qed.
+
+  Lemma get_dict_in_dict_nn node k :
+    Toc.get_dict_in_dict m' (nnd' node) k = option_map nnd' (Toc.get_dict_in_dict m node k).
+  Proof.
+    unfold Toc.get_dict_in_dict. rewrite (dict_get_nnd nreal). destruct (dict_get node k) as [o|]; [|reflexivity].
+    cbn [option_map]. destruct o; cbn [nn]; try reflexivity.
+    - nreal_cases r; reflexivity.
+    - apply (get_dictionary_nn nreal nreal_num d d' C01_objects).
+  Qed.
+
+  Lemma named_tree_nn cat : Toc.named_tree m' (nnd' cat) = option_map nnd' (Toc.named_tree m cat).
+  Proof.
+    unfold Toc.named_tree. rewrite get_dict_in_dict_nn. destruct (Toc.get_dict_in_dict m cat Toc.K_Dests); [reflexivity|].
+    cbn [option_map]. rewrite get_dict_in_dict_nn. destruct (Toc.get_dict_in_dict m cat Toc.K_Names) as [names|]; [|reflexivity].
+    cbn [option_map]. apply get_dict_in_dict_nn.
+  Qed.
+
+  Theorem readable_reload : TocNamed.name_tree_readable d' = TocNamed.name_tree_readable d.
+  Proof.
+    unfold TocNamed.name_tree_readable. rewrite (catalog_nn nreal nreal_num d d' C01_root C01_objects).
+    destruct (catalog d) as [cat|]; [|reflexivity]. cbn [option_map].
+    unfold TocNamed.named_destinations. fold m m'. rewrite named_tree_nn.
+    destruct (Toc.named_tree m cat) as [tree|]; [|reflexivity]. cbn [option_map].
+    unfold get_named_destinations, fuel_nd. unfold m' at 1 3. rewrite C01_count. fold m.
+    pose proof (nd_walk_nn (length m + 1) tree [] (length m) 0) as W.
+    change (nmn []) with (@nil (bytes * dest)) in W. rewrite W.
+    destruct (nd_walk (length m + 1) m tree [] (length m) 0) as [nm [b| | |]]; reflexivity.
+  Qed.
+
+  Theorem holds_any_reload root f : holds_any d root f -> holds_any d' root f.
+  Proof.
+    intros [cat [H1 [H2 [H4 [H5 H6]]]]]. exists (nnd' cat).
+    split; [rewrite (catalog_nn nreal nreal_num d d' C01_root C01_objects), H1; reflexivity|].
+    split; [rewrite (dict_get_nnd nreal), H2; reflexivity|].
+    split; [apply (outline_ok_reload nreal nreal_num d d' C01_objects); exact H4|].
+    split; [exact H5|]. rewrite C01_count. exact H6.
+  Qed.
+End ReloadNamed.
+
+(* add_bookmark calls, build_outline, attach, save + reload, get_toc -- ANY catalog *)
+Theorem reads_back_ops_reload_nm nreal d ops cid rid cat fuel2 d' :
+  (forall r, (exists z, nreal r = OInt z) \/ (exists r', nreal r = OReal r')) ->
+  let b := add_all (fresh_bdoc d) ops in
+  let f := forest_of_ops (map sop_of ops) in
+  let m0 := d_max_id d in
+  f <> [] ->
+  max_id_bounds d ->
+  m0 + 1 + 2 * N.of_nat (fsize f) < U32_LIMIT ->
+  root_id d = Some cid ->
+  get_object_mut_id (d_objects d) cid = Some (rid, ODict cat) ->
+  distinct_titles f -> scalar_titles f ->
+  N.of_nat (fheight f) <= OUTLINE_DEPTH_LIMIT + 1 ->
+  (fsize f <= fuel2)%nat ->
+  exists b',
+    build_outline (default_fuel b) b = OOk (Some (m0 + 1, 0), b') /\
+    let d2 := attach (base b') cid (m0 + 1, 0) in
+    dict_get (d_trailer d') K_Root = dict_get (d_trailer d2) K_Root ->
+    (forall id, lookup (d_objects d') id = option_map (nn nreal) (lookup (d_objects d2) id)) ->
+    length (d_objects d') = length (d_objects d2) ->
+    targets_are_pages d2 f ->
+    get_pages d' = get_pages d2 /\ TocNamed.get_toc fuel2 d' = OutlineProofsNamed.toc_or_err d2 f.
+Proof.
+  intros Hnum b f m0 Hne Hmax Hlim Hroot Hcat Hdist Hscal Hdeep Hfuel2.
+  destruct (add_all_repr d ops) as [Hbase [Hroots [Htr Hdf]]]. fold b f in Hbase, Hroots, Htr, Hdf.
+  rewrite Hdf.
+  pose proof (build_holds_any b f cid rid cat (S (length ops)) Hroots Hne Htr) as H.
+  cbv zeta in H. rewrite Hbase in H. fold m0 in H.
+  destruct (H Hmax Hlim Hroot Hcat (forest_height ops)) as [b' [f' [Hn [Hbuild [Hholds _]]]]].
+  exists b'. split; [exact Hbuild|]. intros d2 C1 C2 C3 Htargets.
+  pose proof (get_pages_reload nreal Hnum d2 d' C1 C2 C3) as Hpages.
+  split; [exact Hpages|].
+  destruct (numbered_conditions _ _ _ _ fuel2 Hn Hdist Hscal Hdeep Hfuel2) as [Hrows [K1 [K2 K3]]].
+  unfold OutlineProofsNamed.toc_or_err, expected_toc.
+  rewrite <- (readable_reload nreal Hnum d2 d' C1 C2 C3), <- Hrows, <- Hpages.
+  apply (OutlineProofsNamed.toc_of_holds_any d' (m0 + 1) f' fuel2 (holds_any_reload nreal Hnum d2 d' C1 C2 C3 _ _ Hholds) K1 K2 K3).
+  rewrite Hpages, Hrows. apply rows_ok; assumption.
+Qed.
